@@ -31,6 +31,7 @@ func checkC15(c *Ctx) {
 		pats = append(pats, "./"+r)
 	}
 	c.Rule("C15/R7", "where a measurement lands does not depend on the lines before it: in Builder.Add every value is appended to the cell looked up (or created) under that measurement's own table key and the result's (row, column) key — no shortcut through cells remembered from an earlier call (same rule as C14/R2)")
+	c.Rule("C15/R8", "sorted key order cannot silently degrade to map order: flattened-field cache invariant (same rule as C09/R10)")
 	p := mustLoad(c, loadOpts{deep: true}, pats...)
 	fns := p.Funcs(append(append([]string{}, c15Pkgs...), c15Ext...)...)
 	eff := newEffects(p, fns)
@@ -52,6 +53,7 @@ func checkC15(c *Ctx) {
 		}
 	}
 	c14Add(c, p, "C15/R7")
+	c09FlatInvariant(c, p, "C15/R8")
 }
 
 // c15Reach: functions reachable from the benchstat command (static calls, closures, interface implementations, function values).
